@@ -98,6 +98,12 @@ class ClassRef:
     def __repr__(self):
         return f"<ClassRef {self.ci.qualname}>"
 
+    def __eq__(self, o):
+        return isinstance(o, ClassRef) and o.ci is self.ci
+
+    def __hash__(self):
+        return hash(("ClassRef", self.ci.qualname))
+
 
 class RepoMod:
     def __init__(self, name: str):
